@@ -3,7 +3,7 @@ package props
 // C02 — running any accepted program never crashes the host.
 //
 // Monitor: recover() around parse/New/Execute (plus the parent's process-fatal detection, and the
-// -race build with checkptr in the thorough tier) under hostile workloads: hostile values in every
+// normal build: goawk has no unsafe code, and one execution is single-threaded) under hostile workloads: hostile values in every
 // numeric and string argument position, hostile configurations (Chars, CSV/TSV modes, odd
 // separators, special variables set through Vars), byte-mutated corpus programs and inputs, deep
 // recursion, repeated execution on one interpreter (cache poisoning) and input delivered in tiny
@@ -426,9 +426,8 @@ func init() {
 			"all runs are sandboxed (NoExec, NoFileWrites, NoFileReads) with a 400k-step budget",
 		},
 		NBatches: func(t core.Tier) int { return n(t, 16, 64) },
-		Race:     func(t core.Tier) bool { return t == core.Thorough },
 		Floors: func(t core.Tier) map[string]int {
-			return map[string]int{"evaluations": n(t, 300000, 600000), "distinct_nontrivial": n(t, 100000, 200000), "gen_hostile": n(t, 8000, 60000), "gen_named-error": 40, "gen_tiny-fields": 16, "gen_deep-recursion": 70, "gen_splitter": 100000, "error_messages": 30}
+			return map[string]int{"evaluations": n(t, 300000, 1500000), "distinct_nontrivial": n(t, 100000, 500000), "gen_hostile": n(t, 8000, 250000), "gen_named-error": 40, "gen_tiny-fields": 16, "gen_deep-recursion": 70, "gen_splitter": 100000, "error_messages": 30}
 		},
 		Run: func(c *core.Ctx) {
 			rng := c.Rand("cases")
@@ -449,7 +448,7 @@ func init() {
 				}
 			})
 			progs := corpus.All()
-			total := n(c.Tier, 22000, 150000) / c.NBatches // thorough runs on the race build (5-10x slower)
+			total := n(c.Tier, 22000, 600000) / c.NBatches
 			for i := 0; i < total; i++ {
 				switch r := rng.Intn(10); {
 				case r < 6:
